@@ -504,11 +504,16 @@ class PassiveState(State):
                     "https://github.com/Budapest-Quantum-Computing-Group/piquasso/issues"  # noqa: E501
                 )
 
+            # NOTE: `get_postselected_fock_basis` expects the total number of modes
+            # and the cutoff before postselection, whereas `self.d` and the cutoff in
+            # the config are already reduced by the postselection.
+            postselected_photons = self._get_postselected_photons()
+
             occupation_numbers = get_postselected_fock_basis(
-                d=self.d,
-                cutoff=self._config.cutoff,
+                d=self.total_number_of_modes,
+                cutoff=self._config.cutoff + int(sum(postselected_photons)),
                 postselected_modes=self._get_postselected_modes(),
-                postselected_photons=self._get_postselected_photons(),
+                postselected_photons=postselected_photons,
             )
 
             particle_overlap = (
